@@ -1864,6 +1864,12 @@ private:
             return false;
         }
 #endif
+        if (tag + 1 == 0) {
+            // the largest sequence number has no successor: tag+1 would wrap, the tail would not cover the item
+            // and it would be written over a buffered one
+            op->status.store(FAILED, std::memory_order_release);
+            return false;
+        }
         // cannot modify this->my_tail now; the buffer would be inconsistent.
         size_t new_tail = (tag+1 > this->my_tail) ? tag+1 : this->my_tail;
 
